@@ -16,6 +16,7 @@ import ActsModel.Driver.Catch
 import ActsModel.Driver.Stream
 import ActsModel.Driver.Generate
 import ActsModel.Driver.Ret
+import ActsModel.Driver.Needs
 open Lean Acts.Driver
 
 def dispatch (req : Lean.Json) : Lean.Json :=
@@ -38,6 +39,7 @@ def dispatch (req : Lean.Json) : Lean.Json :=
   | "c03.monitor" => hierCase req
   | "c06.bubble" => bubbleCase req
   | "c08.monitor" => streamCase req
+  | "c04.needs" => needsCase req
   | "c16.expand" => expandCase req
   | "c16.fires" => firesCase req
   | "c15.actend" => actEndCase req
